@@ -260,6 +260,25 @@ class ReloadProfile:
                         c["services"][n] = rnd.choice(SVC_TYPES)
                 chain.append(c)
             stats.append("long_life_of_the_service_table")
+        full_table = False
+        if rnd.random() < 0.03:
+            # a table that uses every slot the module has (or one fewer), and a reload that replaces a few entries by
+            # differently named ones: the places of those that go are needed for those that come
+            pool = ["f%02d.example.org" % k for k in range(64)]
+            cur = gen_tables(rnd)
+            cur["services"] = {n: rnd.choice(SVC_TYPES) for n in rnd.sample(pool, rnd.choice([32, 32, 32, 31]))}
+            chain = [cur]
+            for _ in range(rnd.choice([1, 1, 2, 3])):
+                c = copy.deepcopy(chain[-1])
+                gone = rnd.sample(sorted(c["services"]), rnd.choice([1, 1, 2, 3]))
+                for n in gone:
+                    del c["services"][n]
+                free = [n for n in pool if n not in c["services"] and n not in gone]
+                for n in rnd.sample(free, len(gone)):
+                    c["services"][n] = rnd.choice(SVC_TYPES)
+                chain.append(c)
+            stats.append("full_table_entries_replaced")
+            full_table = True
         if rnd.random() < 0.15:
             # one string of one rule is edited by two successive reloads: first to another value, then in its
             # letter case only (a change detector that remembers the previous value sees only the second kind)
@@ -281,6 +300,8 @@ class ReloadProfile:
         probes = [gen_probe(rnd, 10 + i) for i in range(rnd.randint(2, 5))]
         pre = [gen_probe(rnd, 50 + i) for i in range(rnd.choice([0, 0, 1, 2]))]
         pending = [gen_probe(rnd, 70 + i) for i in range(rnd.choice([0, 0, 1]))]
+        if full_table:
+            pre, pending = [], []       # (a retired service that a client still awaits keeps its slot: known finding F22)
         plan = {"profile": "reload", "chain": chain, "probes": probes, "pre": pre, "pending": pending,
                 "burst": rnd.choice([1, 1, 1, 2]), "mutations": stats}
         return plan, self.run(plan, tag)
